@@ -470,6 +470,52 @@ class FeatureSubsets(Part):
         return res
 
 
+class DenseLists(Part):
+    name = "dense_lists"
+    desc = "lists of 513 / 600 / 1024 / 1500 numbers (a whole block and more), in three list orders: every listed number is replaced by what a one-number list gives, once"
+
+    def __init__(self, tier, seed):
+        self.tier, self.seed = tier, seed
+
+    def cases(self):
+        return [{"n": n, "order": o, "salt": s} for n in (513, 600, 1024, 1500) for o in ("ascending", "descending", "strided")
+                for s in ("saltForTest", "seed%d" % self.seed)]
+
+    def run(self, case):
+        import io
+
+        from netconan.anonymize_files import FileAnonymizer
+
+        res = Res()
+        nums = [str(64512 + i) for i in range(case["n"])]
+        lst = {"ascending": nums, "descending": nums[::-1], "strided": nums[::7] + [x for i, x in enumerate(nums) if i % 7]}[case["order"]]
+        rep = {n: make([n], case["salt"]).anonymize(n) for n in nums}
+        lines = ["router bgp %s" % n for n in nums] + [" ".join(nums[:40])]
+        with seams.capture_logs():
+            fa = FileAnonymizer(anon_pwd=False, anon_ip=False, salt=case["salt"], as_numbers=list(lst))
+            out = io.StringIO()
+            fa.anonymize_io(io.StringIO("".join(x + "\n" for x in lines)), out)
+        got = out.getvalue().split("\n")[:-1]
+        if len(got) != len(lines):
+            res.violation("line-count", "%d vs %d" % (len(got), len(lines)), case)
+            return res
+        wrong = 0
+        for ln, g in zip(lines, got):
+            res.evals += 1
+            exp = expected(ln, set(nums), rep)
+            if g != exp:
+                wrong += 1
+                if wrong == 1:
+                    res.violation("replacement-depends-on-the-rest-of-the-list|dense-list",
+                                  "list of %d numbers (%s): %r -> %r, a one-number list gives %r" % (case["n"], case["order"], ln, g, exp), case)
+        res.nt((case["n"], case["order"], case["salt"]))
+        res.out(wrong)
+        res.states = 1
+        res.transitions = len(lines)
+        res.samples.append({"case": case, "lines": len(lines)})
+        return res
+
+
 def parts(tier, seed):
     return [RangePart(tier, seed), RealMd5Part(tier, seed), TokenPart(tier, seed), InstancesPart(tier, seed),
-            GeneratedSaltPart(tier, seed), CollisionPart(tier, seed), FeatureSubsets(tier, seed)]
+            GeneratedSaltPart(tier, seed), CollisionPart(tier, seed), FeatureSubsets(tier, seed), DenseLists(tier, seed)]
